@@ -4,7 +4,7 @@
    regenerated files: a source change that makes an instantiation differ breaks it. *)
 From Coq Require Import ZArith.
 From MomoCommon Require Import GenPrelude.
-From C13 Require Gen_Open2N2 Gen_Open2N2_m1 Gen_Open2N2_m2 Gen_Open2N2_nf.
+From C13 Require Gen_Open2N2 Gen_Open2N2_m1 Gen_Open2N2_m2 Gen_Open2N2_nf Gen_Open2N2_ops Gen_OpenN1 Gen_OpenN1_ops.
 Local Open Scope Z_scope.
 
 Lemma same_m1 : Gen_Open2N2_m1.UpdateMaxProbe = Gen_Open2N2.UpdateMaxProbe /\
@@ -28,3 +28,12 @@ Lemma same_all :
   (Gen_Open2N2_nf.UpdateMaxProbe = Gen_Open2N2.UpdateMaxProbe /\ Gen_Open2N2_nf.pvGetMaxProbe = Gen_Open2N2.pvGetMaxProbe /\
    Gen_Open2N2_nf.pvGetCount = Gen_Open2N2.pvGetCount /\ Gen_Open2N2_nf.GetNextBucketIndex = Gen_Open2N2.GetNextBucketIndex).
 Proof. exact (conj same_m1 (conj same_m2 same_nf)). Qed.
+
+(* the module that also translates AddCrt / Remove / pvSetEmpty (Gen_Open2N2_ops, three array fields) carries the
+   same encoder code as the module the encoder proofs are about: the extra fields are never read or written by it *)
+Lemma same_ops :
+  (forall m s h p, Gen_Open2N2_ops.UpdateMaxProbe m s h p = Gen_Open2N2.UpdateMaxProbe m p) /\
+  (forall m s h, Gen_Open2N2_ops.pvGetMaxProbe m s h = Gen_Open2N2.pvGetMaxProbe m) /\
+  (forall m s h, Gen_Open2N2_ops.pvGetCount m s h = Gen_Open2N2.pvGetCount m) /\
+  (forall mc d, Gen_OpenN1_ops.pvGetCount true mc d = Gen_OpenN1.pvGetCount mc d).
+Proof. repeat split; reflexivity. Qed.
